@@ -178,6 +178,14 @@ func (c *context) getActionMethods() map[string][]*actionMethod {
 			continue
 		}
 
+		if sig.Variadic() {
+			c.Errs.Errorf(
+				goMethod.Pos(),
+				"%v: action method cannot be variadic",
+				goMethod.Name())
+			continue
+		}
+
 		method := &actionMethod{
 			Method: goMethod,
 			Return: sig.Results().At(0).Type(),
